@@ -185,6 +185,12 @@ func runEpisode(sc *Scenario) *Result {
 	if sc.Env.GOMAXPROCS > 0 {
 		runtime.GOMAXPROCS(sc.Env.GOMAXPROCS)
 	}
+	if sc.GCStormMs > 0 {
+		stop := make(chan struct{})
+		go envDrainGC(time.Duration(sc.GCStormMs)*time.Millisecond, stop)
+		defer close(stop)
+		ep.probes["gc-storm"]++
+	}
 	consStall, consStallEvery = time.Duration(sc.ConsStallMs)*time.Millisecond, uint64(max(sc.ConsStallEvery, 1))
 	consStallCount.Store(0)
 	consStallSite = 0
@@ -530,6 +536,25 @@ func (ep *episode) faultPath(j *Job, ext string) (string, error) {
 		return base, nil
 	case "devfull":
 		return "/dev/full", nil
+	case "symloop":
+		// the path is a symbolic link to itself (or one of a pair that point at each
+		// other): it cannot be created (ELOOP), and whoever follows links by hand loops
+		os.Remove(base)
+		if j.ID%2 == 0 {
+			if err := os.Symlink(filepath.Base(base), base); err != nil {
+				return "", err
+			}
+		} else {
+			other := base + ".b"
+			os.Remove(other)
+			if err := os.Symlink(other, base); err != nil {
+				return "", err
+			}
+			if err := os.Symlink(base, other); err != nil {
+				return "", err
+			}
+		}
+		return base, nil
 	case "fifo":
 		// the output path is a named pipe with a reader at the other end: every
 		// write succeeds, nothing can be sought or truncated
@@ -664,6 +689,20 @@ func warmModel2(s sdf.SDF2, n int) {
 	}
 	for i := 0; i < n; i++ {
 		s.Evaluate(v2.Vec{X: bb.Min.X + sz.X*float64(i%side)/float64(side), Y: bb.Min.Y + sz.Y*float64(i/side)/float64(side)})
+	}
+}
+
+// envDrainGC is the memory pressure of the rest of the program: it forces a garbage
+// collection every d (finalizers run, sync.Pools are emptied, weak state is dropped).
+// Its name starts with envDrain so that the quiescence detector leaves it alone.
+func envDrainGC(d time.Duration, stop <-chan struct{}) {
+	for {
+		select {
+		case <-stop:
+			return
+		case <-time.After(d):
+			runtime.GC()
+		}
 	}
 }
 
